@@ -8,6 +8,6 @@ git -C /repo worktree add --detach $w HEAD >/dev/null 2>&1 || exit 2
 git -C $w apply /verif/seeded/$s/patch.diff || { echo "patch does not apply"; git -C /repo worktree remove --force $w; exit 2; }
 ev=$(mktemp -d /tmp/ev_${s}_XXXX)
 cd ${VERIF_DIR:-/verif}
-BT_REPO=$w BT_VERIF_EVIDENCE_DIR=$ev ./check $p --tier $tier > /tmp/ts_$s.out 2>&1; rc=$?
+BT_REPO=$w BT_VERIF_EVIDENCE_DIR=$ev BT_VERIF_REPLAY_DIR=$ev/replay ./check $p --tier $tier > /tmp/ts_$s.out 2>&1; rc=$?
 echo "$s rc=$rc $(grep -c '^VIOLATION' /tmp/ts_$s.out) violations; first: $(grep -m1 '^VIOLATION' /tmp/ts_$s.out | cut -c1-160)"
 git -C /repo worktree remove --force $w; rm -rf $ev
